@@ -46,7 +46,13 @@ func main() {
 		w := vh.Create(a.Cases)
 		for i := 0; i < n; i++ {
 			r := vh.NewRand(a.Seed*1000003 + uint64(i))
-			hdr, ops := generate(r, steps)
+			var hdr string
+			var ops []string
+			if i%25 < len(scenarios) {
+				hdr, ops = scenarios[i%25](r)
+			} else {
+				hdr, ops = generate(r, steps)
+			}
 			w.Printf("%d %s | %s\n", i, hdr, strings.Join(ops, " ; "))
 		}
 		w.Close()
@@ -411,6 +417,15 @@ func (mo *monitor) observe(c *raftsim.Cluster, op string, res raftsim.Result) {
 	// non-voting or witness, or that was non-voting/witness one operation ago, must not be
 	// (pre)candidate or leader (promotion goes through the follower role)
 	if st.Role == 1 || st.Role == 2 || st.Role == 3 {
+		self := false
+		for _, rm := range st.Remotes {
+			if rm.ID == n.ID {
+				self = true
+			}
+		}
+		if !self && (st.Role != 3 || f[0] != "ACC") {
+			mo.v("C18", "replica %d is role %d although it is not in its own membership (removed)", n.ID, st.Role)
+		}
 		for _, rm := range st.Remotes {
 			if rm.ID == n.ID && rm.Kind != 0 {
 				mo.v("C18", "replica %d is role %d while its membership lists it as kind %d", n.ID, st.Role, rm.Kind)
